@@ -647,6 +647,15 @@ func (n *Normalizer) apply(orig *App, fun Term, args []Term) Term {
 			return n.apply(&App{node: orig.node}, f.Fun, all)
 		}
 	case *FuncRef:
+		// frt.Fst / frt.Snd applied through a pipe or as a function value are the projections the direct call is
+		if len(args) == 1 && !orig.Spread {
+			switch f.Key {
+			case "github.com/karino2/folang/pkg/frt.Fst":
+				return mkProj(args[0], 0, false)
+			case "github.com/karino2/folang/pkg/frt.Snd":
+				return mkProj(args[0], 1, false)
+			}
+		}
 		if callee, ok := n.Inline[f.Key]; ok && !n.busy[callee] && len(args) == len(callee.Params) && !orig.Spread {
 			saved := n.ifs
 			nf := n.Func(callee)
